@@ -252,7 +252,7 @@ def rule_event_flags(ck, rid="C05.R3"):
 # R4 escape
 # ----------------------------------------------------------------------------
 
-def rule_escape(ck):
+def rule_escape(ck, rid="C05.R4"):
     repo = ck.repo
     iface = repo.cls("Interface")
     es = Escape(repo, iface, ("self._simulator",))
@@ -262,30 +262,30 @@ def rule_escape(ck):
             continue
         n += 1
         k = es.member(name)
-        ck.require(k in (SCALAR, FRESH, ARG), "C05.R4", m, f"Interface.{name} -> {k}", ok="returns a scalar or a fresh object",
+        ck.require(k in (SCALAR, FRESH, ARG), rid, m, f"Interface.{name} -> {k}", ok="returns a scalar or a fresh object",
                    bad=f"Interface.{name} hands out an object that shares mutable state with the simulator "
                        f"({'; '.join(f'{e}: {kk}' for e, kk in es.trace.get(('Interface', name), []))}): a scheduler mutating it alters the simulation",
                    sink=f"{name}:alias")
-    ck.floor("C05.R4", n, 18, "public members of Interface")
+    ck.floor(rid, n, 18, "public members of Interface")
     sim = repo.cls("Simulator")
     es2 = Escape(repo, sim, ("self",))
     m = repo.method(sim, "get_active_evs")
     k = es2.member("get_active_evs")
-    ck.require(k in (SCALAR, FRESH), "C05.R4", m, f"Simulator.get_active_evs -> {k}", ok="returns a deep copy",
+    ck.require(k in (SCALAR, FRESH), rid, m, f"Simulator.get_active_evs -> {k}", ok="returns a deep copy",
                bad="Simulator.get_active_evs returns the network's own EV objects", sink="get_active_evs:alias")
     # BaseAlgorithm.run hands schedule() the interface's fresh session list
     br = repo.fn("BaseAlgorithm.run")
     fl = flow_of(br)
     sc = [(n_, c) for n_, c in calls_in(fl, "schedule")]
-    ck.require(len(sc) == 1, "C05.R4", br, sc[0][1] if sc else "self.schedule(...)", bad=f"{len(sc)} schedule() call sites in BaseAlgorithm.run", sink="alg-run:count")
+    ck.require(len(sc) == 1, rid, br, sc[0][1] if sc else "self.schedule(...)", bad=f"{len(sc)} schedule() call sites in BaseAlgorithm.run", sink="alg-run:count")
     for n_, c in sc:
         a = fl.expand(c.args[0], n_) if c.args else None
         ok = a is not None and canon(a) in ("self.interface.active_sessions()", "self._interface.active_sessions()")
-        ck.require(ok, "C05.R4", br, c, ok="schedule() receives interface.active_sessions() (a fresh copy)",
+        ck.require(ok, rid, br, c, ok="schedule() receives interface.active_sessions() (a fresh copy)",
                    bad=f"schedule() receives {src(a) if a is not None else None}, not the copying accessor active_sessions()", sink="alg-run:arg")
         rets = [r for r in fl.cfg.nodes if r.kind == "return"]
         ok = bool(rets) and all(canon(fl.expand(r.expr, r)) == canon(fl.expand(c, n_)) for r in rets)
-        ck.require(ok, "C05.R4", br, rets[0].stmt if rets else "return", ok="returns what schedule() returned", bad="run() does not return schedule()'s result",
+        ck.require(ok, rid, br, rets[0].stmt if rets else "return", ok="returns what schedule() returned", bad="run() does not return schedule()'s result",
                    sink="alg-run:return")
 
 
